@@ -333,10 +333,28 @@ func runC02(c *core.Ctx) {
 		c.Violate(sig, fmt.Sprintf("%s [family=%s, %d mutations so far, n=%d]", msg, fam, stepNo, len(keys)),
 			map[string]any{"family": fam, "history": h, "history_len": len(hist)})
 	}
+	var sib *avl.Tree[int]
+	var sibIn []int
+	sibCheck := func(op string) bool {
+		pre, in := sib.SlicePreOrder(), sib.SliceInOrder()
+		c.Count("sibling_tree_checks", 1)
+		if !eqSlice(in, sibIn) {
+			fail(op+":sibling-changed", fmt.Sprintf("a tree related by Clone to the one being mutated held %d values and now holds %d (or other ones)", len(sibIn), len(in)))
+			return false
+		}
+		if si := avlShape(pre, in); si.err != "" || si.unbalanced {
+			fail(op+":sibling-unbalanced", fmt.Sprintf("after %s on one tree, the tree related to it by Clone (not touched since) has a node %d with left height %d and right height %d %s", op, si.badNode, si.hl, si.hr, si.err))
+			return false
+		}
+		return true
+	}
 	check := func(op string, force bool) bool {
 		stepNo++
 		if !force && stepNo%checkEvery != 0 {
 			return true
+		}
+		if sib != nil && len(sibIn) <= 3000 && (force || len(sibIn) < 64 || r.Chance(1, 8)) && !sibCheck(op) {
+			return false
 		}
 		pre, in := t.SlicePreOrder(), t.SliceInOrder()
 		n := len(in)
@@ -398,11 +416,23 @@ func runC02(c *core.Ctx) {
 	}
 	cloneSwaps := r.Chance(1, 3)
 	maybeClone := func() {
+		if sib != nil && !sibCheck("Clone") {
+			return
+		}
 		if cloneSwaps && r.Chance(1, 25) {
 			// continue on a clone: "after every Add or Remove" also holds for trees that came out of Clone
 			cl := t.Clone()
-			t = &cl
-			hist = append(hist, "t = t.Clone()")
+			// the tree that is not continued on stays around as a sibling: mutations of one
+			// must leave the other exactly as it was, balanced node for node
+			sibIn = t.SliceInOrder()
+			if r.Bool() {
+				sib = t
+				t = &cl
+				hist = append(hist, "sibling = t; t = t.Clone()")
+			} else {
+				sib = &cl
+				hist = append(hist, "sibling = t.Clone()")
+			}
 			c.Count("clone_swaps", 1)
 		}
 	}
